@@ -143,6 +143,22 @@ def check_set(p, specs, label, parsed=False):
             if probs2:
                 p['violations'].append(violation(PID, 'fk-differs-after-edit', dict(case, route=route), observed=probs2[:4],
                                                  detail='after rendering once, re-typing the columns of table b and moving it to schema "moved": ' + probs2[0][:400]))
+                continue
+            # ... and after the kind of the (already rendered) reference is edited to each other kind in turn
+            for newkind in KINDS:
+                if newkind == m2['refs'][0]['type']:
+                    continue
+                m2['refs'][0]['type'] = newkind
+                db.refs[0].type = newkind
+                try:
+                    probs3 = [x for x in sqlref.compare_c04(m2, ddl.read(db.sql)) if 'COLLIDE' not in x]
+                except Exception as e:
+                    probs3 = [f'{type(e).__name__}: {e}']
+                p['evaluations'] += 1
+                if probs3:
+                    p['violations'].append(violation(PID, 'fk-differs-after-edit', dict(case, route=route, kind_edited_to=newkind), observed=probs3[:4],
+                                                     detail=f'after rendering and then editing the reference kind to {newkind!r}: ' + probs3[0][:400]))
+                    break
     p['nontrivial'].add(digest(case))
 
 
